@@ -529,7 +529,15 @@ def transform_item(t: Txt, opts, subs, log, label):
     return t
 
 def apply_vis(t: Txt, vis, label, log):
-    if vis == 'keep' or vis is None: return
+    if vis == 'keep' or vis is None:
+        # R1 (automatic): a path-restricted visibility (`pub(super)`, `pub(in ..)`) has no meaning in the flattened unit file and is
+        # written `pub(crate)`, so that a visibility-only edit of the repository does not make the unit undecidable
+        m = re.match(r'(\s*)(pub\((?:super|in [^)]*)\)\s+)', t.s)
+        if m:
+            a = m.end(1); b = m.end(); new = 'pub(crate) '
+            log.append({'rule': 'R1', 'item': label, 'before': t.s[a:b].strip(), 'after': 'pub(crate)'})
+            t.splice(a, b, Txt(new, [t.o[a] if a < len(t.o) else 0] * len(new)))
+        return
     m = re.match(r'(\s*)(pub(?:\([^)]*\))?\s+)?', t.s)
     a = m.end(1); b = m.end()
     old = t.s[a:b]
